@@ -106,6 +106,11 @@ def configs(tier):
                     # the documented power form SeparableSum(f, 2): ONE functional object twice
                     cfgs.append({'kind': 'sepsum', 'f1': f1, 'f2': f2, 'sigma': s, 'sk': sk,
                                  'same': 1})
+    # simple_functional given all ingredients of f = |x|^2: f, f* and f** each hand out a proximal
+    for sp in ('rn2', 'rn2wa', 'ud2'):
+        for lvl in (0, 1, 2, 3):
+            for s in sig[:2]:
+                cfgs.append({'kind': 'simple', 'level': lvl, 'space': sp, 'sigma': s, 'sk': 'scalar'})
     for b in DER_BASES:
         for sp in ('rn3', 'ud3', 'rn3wa'):
             for s in sig[:2]:
@@ -146,6 +151,9 @@ def _site(cfg):
                                                                       _space_kind(cfg['space']))
     if k == 'composition':
         return 'proximal_composition(%s)[%s]' % (cfg['name'], _space_kind(cfg['space']))
+    if k == 'simple':
+        return 'simple_functional%s.proximal[%s]' % ('.convex_conj' * cfg['level'],
+                                                     _space_kind(cfg['space']))
     return k
 
 
@@ -234,6 +242,20 @@ def _build(cfg):
             ref0 = ref
             ref = lambda z: float(sc) * ref0(z)
         return f, info, ref, [-2.0, 0.0, 0.5, 3.0], 1e-6
+    if k == 'simple':
+        info = FR.info(cfg['space'])
+        sp = info.space
+        f = odl.solvers.simple_functional(
+            sp, fcall=lambda x: x.inner(x), grad=lambda x: 2.0 * x,
+            prox=lambda sig: odl.ScalingOperator(sp, 1.0 / (1.0 + 2.0 * sig)), grad_lip=2.0,
+            convex_conj_fcall=lambda y: y.inner(y) / 4.0, convex_conj_grad=lambda y: 0.5 * y,
+            convex_conj_prox=lambda sig: odl.ScalingOperator(sp, 1.0 / (1.0 + 0.5 * sig)),
+            convex_conj_grad_lip=0.5)
+        for _ in range(cfg['level']):
+            f = f.convex_conj
+        ref = ((lambda z: info.norm2(z)) if cfg['level'] % 2 == 0
+               else (lambda y: info.norm2(y) / 4.0))
+        return f, info, ref, FR.V5, 1e-9
     if k == 'defaultconj2':
         from odl.solvers.functional.functional import FunctionalDefaultConvexConjugate
         spec = FR.BY_NAME[cfg['name']]
